@@ -2,6 +2,9 @@ import Hgxv.Proofs.C09Order
 import Hgxv.Proofs.C09Tensor
 import Hgxv.Proofs.C09Witness
 import Hgxv.Proofs.C09Relabel
+import Hgxv.Proofs.C09Multi
+import Hgxv.Proofs.C09Psd
+import Mathlib.Algebra.Field.Defs
 import Mathlib.Data.ZMod.Basic
 /-! # C09 — matrix / tensor representations equal their definitions under the node mapping
 
@@ -452,6 +455,304 @@ theorem C09_shapes {R : Type} [CommRing R] [DecidableEq R] (d : Nat) (nodes : Li
       entry_map_map_none _ _ _ i j (by simpa using h)]
     rfl
 
+/-! ## extension round: algebraic relations between the matrices, loops over the orders -/
+
+/-- `B Bᵀ = A + D` : the Gram matrix of the binary incidence matrix is the adjacency matrix plus the diagonal matrix of the
+(total) degrees - i.e. `A = B Bᵀ − D`, which is what `setdiag(0)` computes. -/
+theorem C09_adjacency_gram {R : Type} [CommRing R] (nodes : List Nat) (edges : List Edge)
+    (hN : nodes.Nodup) (hE : ∀ e ∈ edges, ∀ x ∈ e, x ∈ nodes)
+    (i j : Nat) (hi : i < (classes nodes).length) (hj : j < (classes nodes).length) :
+    entry (mulT (binInc nodes edges : List (List R)) (binInc nodes edges)) i j
+      = (entry (adj nodes edges : List (List R)) i j).map fun a =>
+          a + if i = j then ((edges.countP fun e => decide ((classes nodes)[i] ∈ e) : Nat) : R) else 0 := by
+  rw [C09_adjacency nodes edges hN hE i j hi hj, binInc_eq nodes edges hN hE, mulT_rows,
+    entry_map_map _ _ _ i j hi hj]
+  simp only [ind_mul_ind, sum_map_ind, Option.map_some, Option.some.injEq]
+  by_cases h : i = j
+  · subst h; simp
+  · simp [h]
+
+/-- Per order, unweighted: `I_d I_dᵀ = A_d + D_d` entry by entry (`A_d`, `D_d` the model's order-`d` adjacency and degree
+matrices), i.e. `A_d = I_d I_dᵀ − D_d` and `L_d = (d+1) D_d − I_d I_dᵀ = d D_d − A_d`. -/
+theorem C09_by_order_gram {R : Type} [CommRing R] (d : Nat) (nodes : List Nat) (es : List (Edge × R))
+    (hN : nodes.Nodup) (hE : ∀ e ∈ es, ∀ x ∈ e.1, x ∈ nodes) (hW : ∀ e ∈ es, e.2 = 1)
+    (i j : Nat) (hi : i < (classes nodes).length) (hj : j < (classes nodes).length) :
+    entry (mulT (incByOrder d true nodes es) (incByOrder d true nodes es)) i j
+      = (entry (adjByOrder d nodes es) i j).bind fun a =>
+          (entry (degMatrix d nodes es) i j).map fun b => a + b := by
+  rw [gramMatrix_eq d nodes es hN hE, entry_map_map _ _ _ i j hi hj, C09_by_order d nodes es hN hE hW i j hi hj,
+    C09_degree_matrix d nodes es i j hi hj, gram_unweighted d es hW]
+  simp only [Option.bind_some, Option.map_some, Option.some.injEq]
+  by_cases h : i = j
+  · subst h; simp
+  · simp [h]
+
+/-- Degree matrix = row sums: for an unweighted hypergraph (duplicate-free hyperedges) the row of node `a` of the order-`d`
+adjacency matrix sums to `d` times the order-`d` degree of `a` (each hyperedge of order `d` through `a` has `d` other members).
+`A a b` is the entry in the row / column of the nodes `a`, `b` (located by the node mapping). -/
+theorem C09_adjacency_row_sums {R : Type} [CommRing R] (d : Nat) (nodes : List Nat) (es : List (Edge × R))
+    (hN : nodes.Nodup) (hE : ∀ e ∈ es, ∀ x ∈ e.1, x ∈ nodes) (hD : ∀ e ∈ es, e.1.Nodup) (hW : ∀ e ∈ es, e.2 = 1) :
+    ∃ A : Nat → Nat → R,
+      (∀ a ∈ nodes, ∀ b ∈ nodes,
+        entry (adjByOrder d nodes es) (encode (classes nodes) a) (encode (classes nodes) b) = some (A a b))
+      ∧ ∀ a ∈ nodes, ((classes nodes).map fun b => A a b).sum
+          = (d : R) * ((es.countP fun e => e.1.length == d + 1 && decide (a ∈ e.1) : Nat) : R) := by
+  refine ⟨fun a b => if a = b then 0 else gram d es a b,
+    fun a ha b hb => adjByOrder_entry_label d nodes es hN hE a b ha hb, ?_⟩
+  intro a ha
+  rw [adj_row_sum_label d nodes es hE hD hW a ha, degree_eq_countP]
+  simp only [Bool.and_self]
+
+/-- The adjacency matrix is the sum over the orders `0..max_order` of the per-order adjacency matrices
+(unweighted hypergraph): every hyperedge is counted at exactly one order. -/
+theorem C09_adjacency_sum_orders {R : Type} [CommRing R] (nodes : List Nat) (es : List (Edge × R))
+    (hN : nodes.Nodup) (hE : ∀ e ∈ es, ∀ x ∈ e.1, x ∈ nodes) (hW : ∀ e ∈ es, e.2 = 1)
+    (m : Nat) (hm : maxOrder es = some m)
+    (i j : Nat) (hi : i < (classes nodes).length) (hj : j < (classes nodes).length) :
+    ∃ f : Nat → R, (∀ d, entry (adjByOrder d nodes es) i j = some (f d))
+      ∧ entry (adj nodes (es.map (·.1)) : List (List R)) i j = some (((List.range (m + 1)).map f).sum) := by
+  have hE' : ∀ e ∈ es.map (·.1), ∀ x ∈ e, x ∈ nodes := by
+    intro e he x hx
+    obtain ⟨e', he', rfl⟩ := List.mem_map.1 he
+    exact hE e' he' x hx
+  refine ⟨fun d => if i = j then 0 else ((es.countP fun e => e.1.length == d + 1 &&
+      (decide ((classes nodes)[i] ∈ e.1) && decide ((classes nodes)[j] ∈ e.1)) : Nat) : R),
+    fun d => C09_by_order d nodes es hN hE hW i j hi hj, ?_⟩
+  rw [C09_adjacency nodes _ hN hE' i j hi hj]
+  congr 1
+  by_cases h : i = j
+  · simp [h]
+  · simp only [if_neg h]
+    have hcast : ∀ (l : List Nat) (g : Nat → Nat), (((l.map g).sum : Nat) : R) = (l.map fun x => ((g x : Nat) : R)).sum := by
+      intro l g
+      induction l with
+      | nil => simp
+      | cons a l ih => simp [ih]
+    rw [← hcast, countP_orders es (fun e => decide ((classes nodes)[i] ∈ e.1) && decide ((classes nodes)[j] ∈ e.1)) (m + 1),
+      List.countP_map]
+    congr 1
+    apply List.countP_congr
+    intro e he
+    have hb := (maxOrder_spec es m hm).2.1 e he
+    simp only [Function.comp, Bool.and_eq_true, decide_eq_true_eq]
+    constructor
+    · intro h1
+      refine ⟨h1, ?_, hb⟩
+      exact List.length_pos_of_mem h1.1
+    · intro h1
+      exact h1.1
+
+/-- `incidence_matrices_all_orders` / `laplacian_matrices_all_orders`: they raise exactly for a hypergraph without
+hyperedges; otherwise the keys are the orders `1..m`, `m = max_order()` the largest order of a hyperedge, and the value at
+`d` is the per-order matrix (`incidence_matrix_by_order` / `laplacian_matrix_by_order` with the same flags). -/
+theorem C09_all_orders {R : Type} [CommRing R] (k w : Bool) (nodes : List Nat) (es : List (Edge × R)) :
+    (es = [] → maxOrder es = none ∧ incAllOrders k nodes es = none ∧ lapAllOrders w nodes es = none)
+    ∧ (es ≠ [] → ∃ m, maxOrder es = some m ∧ (∀ e ∈ es, e.1.length ≤ m + 1) ∧ (∃ e ∈ es, e.1.length - 1 = m)
+        ∧ incAllOrders k nodes es = some ((List.range m).map fun i => (i + 1, incByOrder (i + 1) k nodes es))
+        ∧ lapAllOrders w nodes es = some ((List.range m).map fun i =>
+            (i + 1, if w then laplacianScaled (i + 1) nodes es else laplacian (i + 1) nodes es))) := by
+  constructor
+  · rintro rfl
+    simp [maxOrder, incAllOrders, lapAllOrders, orders]
+  · intro hne
+    cases h : maxOrder es with
+    | none => exact absurd ((maxOrder_eq_none es).1 h) hne
+    | some m =>
+      have hs := maxOrder_spec es m h
+      refine ⟨m, rfl, hs.2.1, hs.2.2, ?_, ?_⟩
+      · simp [incAllOrders, orders, h, List.map_map, Function.comp]
+      · simp [lapAllOrders, lapFlag, orders, h, List.map_map, Function.comp]
+
+/-- `compute_multiorder_laplacian(sigmas, order_weighted, degree_weighted)`: raises exactly without hyperedges; the
+Laplacians of the orders `1..max_order` are paired with the sigmas (`zip`: the longer list is cut); with
+`degree_weighted` and a used order of average degree 0 nothing is claimed (`1.0/0.0`); without any pair the routine
+returns the integer 0; otherwise it returns the matrix whose entry `(i, j)` is
+`Σ_d  c_d · σ_d · L_d[i, j]`, `c_d = 1` or `N / Σ_x degree_d(x)` - the sigma-weighted sum of the per-order Laplacians. -/
+theorem C09_multiorder_laplacian {R : Type} [Field R] (sigmas : List R) (ow dw : Bool)
+    (nodes : List Nat) (es : List (Edge × R)) (hN : nodes.Nodup) (hE : ∀ e ∈ es, ∀ x ∈ e.1, x ∈ nodes) :
+    (multiorderLaplacian sigmas ow dw nodes es = none ↔ es = [])
+    ∧ ∀ ds, orders es = some ds →
+      ((dw = true ∧ ∃ p ∈ ds.zip sigmas, degreeTotal p.1 nodes es = 0) →
+          multiorderLaplacian sigmas ow dw nodes es = some MultiLap.undefScale)
+      ∧ (¬ (dw = true ∧ ∃ p ∈ ds.zip sigmas, degreeTotal p.1 nodes es = 0) →
+          (ds.zip sigmas = [] → multiorderLaplacian sigmas ow dw nodes es = some MultiLap.noMatrix)
+          ∧ (ds.zip sigmas ≠ [] → ∃ M, multiorderLaplacian sigmas ow dw nodes es = some (MultiLap.mat M)
+              ∧ ∀ i j, i < (classes nodes).length → j < (classes nodes).length →
+                ∃ f : Nat → R, (∀ d, entry (lapFlag ow d nodes es) i j = some (f d))
+                  ∧ entry M i j = some (((ds.zip sigmas).map fun p =>
+                      (if dw then invAvgDegree p.1 nodes es else 1) * (p.2 * f p.1)).sum))) := by
+  constructor
+  · unfold multiorderLaplacian orders
+    rw [Option.map_eq_none_iff, Option.map_eq_none_iff, maxOrder_eq_none]
+  · intro ds hds
+    have hguard : (dw && (ds.zip sigmas).any (fun p => degreeTotal p.1 nodes es == 0)) = true
+        ↔ (dw = true ∧ ∃ p ∈ ds.zip sigmas, degreeTotal p.1 nodes es = 0) := by
+      simp
+    constructor
+    · intro hg
+      unfold multiorderLaplacian
+      rw [hds]
+      simp only [Option.map_some]
+      rw [if_pos (hguard.2 hg)]
+    · intro hg
+      have hg' : ¬ (dw && (ds.zip sigmas).any (fun p => degreeTotal p.1 nodes es == 0)) = true := fun h => hg (hguard.1 h)
+      constructor
+      · intro hnil
+        unfold multiorderLaplacian
+        rw [hds]
+        simp only [Option.map_some]
+        rw [if_neg hg', hnil]
+        rfl
+      · intro hne
+        cases hS : matSum ((ds.zip sigmas).map (multiTerm ow dw nodes es)) with
+        | none =>
+          exfalso
+          rw [matSum_eq_none, List.map_eq_nil_iff] at hS
+          exact hne hS
+        | some S =>
+          refine ⟨S, ?_, ?_⟩
+          · unfold multiorderLaplacian
+            rw [hds]
+            simp only [Option.map_some]
+            rw [if_neg hg', hS]
+          · intro i j hi hj
+            have hlap : ∀ d, entry (laplacian d nodes es) i j
+                = some (((d + 1 : Nat) : R) * (if i = j then ((degree d es (classes nodes)[i] : Nat) : R) else 0)
+                    - gram d es (classes nodes)[i] (classes nodes)[j]) :=
+              fun d => lap_entry d nodes es hN hE i j hi hj
+            refine ⟨fun d => if ow then ((scaleFactor d : Nat) : R) *
+                (((d + 1 : Nat) : R) * (if i = j then ((degree d es (classes nodes)[i] : Nat) : R) else 0)
+                    - gram d es (classes nodes)[i] (classes nodes)[j])
+              else (((d + 1 : Nat) : R) * (if i = j then ((degree d es (classes nodes)[i] : Nat) : R) else 0)
+                    - gram d es (classes nodes)[i] (classes nodes)[j]), ?_, ?_⟩
+            · intro d
+              cases ow
+              · simp only [lapFlag, Bool.false_eq_true, if_false]; exact hlap d
+              · simp only [lapFlag, if_true, laplacianScaled, entry_smul, hlap d, Option.map_some]
+            · apply entry_matSum (multiTerm ow dw nodes es) _ i j (ds.zip sigmas) _ S hS
+              intro p _
+              cases ow <;> cases dw <;>
+                simp [multiTerm, lapFlag, laplacianScaled, entry_smul, hlap p.1]
+
+/-- Whatever the flags and the sigmas: for an unweighted hypergraph (hyperedges duplicate-free tuples of nodes) the
+multi-order Laplacian is an `N × N` matrix, symmetric, and every row sums to zero. -/
+theorem C09_multiorder_invariants {R : Type} [Field R] (sigmas : List R) (ow dw : Bool)
+    (nodes : List Nat) (es : List (Edge × R)) (hN : nodes.Nodup) (hE : ∀ e ∈ es, ∀ x ∈ e.1, x ∈ nodes)
+    (hD : ∀ e ∈ es, e.1.Nodup) (hW : ∀ e ∈ es, e.2 = 1)
+    (M : List (List R)) (hM : multiorderLaplacian sigmas ow dw nodes es = some (MultiLap.mat M)) :
+    M.length = nodes.length
+    ∧ (∀ r ∈ M, r.length = nodes.length ∧ r.sum = 0)
+    ∧ ∀ i j, i < nodes.length → j < nodes.length → entry M i j = entry M j i := by
+  have hl := classes_length nodes hN
+  have key : LapLike (classes nodes).length M := by
+    unfold multiorderLaplacian at hM
+    cases hds : orders es with
+    | none => rw [hds] at hM; simp at hM
+    | some ds =>
+      rw [hds] at hM
+      simp only [Option.map_some, Option.some.injEq] at hM
+      split at hM
+      · cases hM
+      · cases hS : matSum ((ds.zip sigmas).map (multiTerm ow dw nodes es)) with
+        | none => rw [hS] at hM; cases hM
+        | some S =>
+          rw [hS] at hM
+          cases hM
+          apply lapLike_matSum _ _ _ _ hS
+          intro T hT
+          obtain ⟨p, _, rfl⟩ := List.mem_map.1 hT
+          have h1 := lapLike_smul _ p.2 _ (lapLike_lapFlag ow p.1 nodes es hN hE hD hW)
+          unfold multiTerm
+          cases dw
+          · simpa using h1
+          · simpa using lapLike_smul _ (invAvgDegree p.1 nodes es) _ h1
+  rw [← hl]
+  exact ⟨key.1.1, fun r hr => ⟨key.1.2 r hr, key.2.2 r hr⟩, key.2.1⟩
+
+/-- The order-`d` Laplacian of an unweighted hypergraph is positive semidefinite, as a sum over the hyperedges: with
+`L a b` the entry in the row of node `a` and the column of node `b` (rows located by the node mapping), for every vector
+`x` indexed by the nodes  `xᵀ L x = Σ_{e of order d} ((d+1)·Σ_{a∈e} x_a² − (Σ_{a∈e} x_a)²)`  (`= Σ_e Σ_{a<b∈e} (x_a − x_b)²`),
+and every summand is `≥ 0` by the Cauchy-Schwarz inequality, in every linearly ordered commutative ring (`Int`, `Rat`). -/
+theorem C09_laplacian_psd {R : Type} [CommRing R] [LinearOrder R] [IsStrictOrderedRing R]
+    (d : Nat) (nodes : List Nat) (es : List (Edge × R))
+    (hN : nodes.Nodup) (hE : ∀ e ∈ es, ∀ x ∈ e.1, x ∈ nodes) (hD : ∀ e ∈ es, e.1.Nodup) (hW : ∀ e ∈ es, e.2 = 1) :
+    ∃ L : Nat → Nat → R,
+      (∀ a ∈ nodes, ∀ b ∈ nodes,
+        entry (laplacian d nodes es) (encode (classes nodes) a) (encode (classes nodes) b) = some (L a b))
+      ∧ ∀ x : Nat → R,
+          ((classes nodes).map fun a => ((classes nodes).map fun b => x a * L a b * x b).sum).sum
+            = ((ofOrder d es).map fun e =>
+                ((d + 1 : Nat) : R) * (e.1.map fun a => x a * x a).sum - (e.1.map x).sum * (e.1.map x).sum).sum
+          ∧ (∀ e ∈ ofOrder d es,
+              0 ≤ ((d + 1 : Nat) : R) * (e.1.map fun a => x a * x a).sum - (e.1.map x).sum * (e.1.map x).sum)
+          ∧ 0 ≤ ((classes nodes).map fun a => ((classes nodes).map fun b => x a * L a b * x b).sum).sum := by
+  refine ⟨lapL d es, fun a ha b hb => lap_entry_label d nodes es hN hE a b ha hb, fun x =>
+    ⟨lap_quadratic_form d nodes es hE hD hW x, ?_, lap_quadratic_form_nonneg d nodes es hE hD hW x⟩⟩
+  intro e he
+  have hl := ((mem_ofOrder d es e).1 he).2
+  have := sq_sum_le e.1 x
+  rw [hl] at this
+  linarith
+
+/-- Every entry of the adjacency tensor is 0 or 1 (also for a weighted hypergraph: the weights are not used). -/
+theorem C09_tensor_values {R : Type} [CommRing R] (N : Nat) (edges : List Edge) (t : List (List Nat × R))
+    (ht : tensor N edges = some t) : ∀ pv ∈ t, pv.2 = 0 ∨ pv.2 = 1 := by
+  have hsome : (tensor N edges : Option (List (List Nat × R))).isSome := by rw [ht]; rfl
+  obtain ⟨hne, k, hU⟩ := (C09_tensor_defined N edges).1 hsome
+  obtain ⟨t', ht', _, hchar⟩ := C09_tensor (R := R) N k edges hne hU
+  rw [ht] at ht'
+  cases ht'
+  intro pv hpv
+  have := ((hchar pv.1 pv.2).1 hpv).2
+  rw [this]
+  split
+  · right; rfl
+  · left; rfl
+
+/-- `temporal_adjacency_matrices_all_orders(th, max_order)`: raises only when `max_order` is not given and there is no
+record; the keys are the orders `1..m` (`m` = the given `max_order`, else the largest order of a record); under each
+order the keys are the times of the records and the matrix at `t` is the order-`d` adjacency matrix of the snapshot at `t`. -/
+theorem C09_temporal_all_orders {R : Type} [CommRing R] (mo : Option Nat) (recs : List (Rec R)) :
+    (temporalAdjAllOrders mo recs = none ↔ mo = none ∧ recs = [])
+    ∧ ∀ l, temporalAdjAllOrders mo recs = some l →
+        ∃ m, (mo = some m ∨ (mo = none ∧ temporalMaxOrder recs = some m))
+          ∧ l.map (·.1) = (List.range m).map (· + 1)
+          ∧ ∀ d tm, (d, tm) ∈ l → tm.map (·.1) = times recs
+              ∧ ∀ t M, (t, M) ∈ tm → M = adjByOrder d (snapshotNodes recs t) (snapshot recs t) := by
+  have hval : ∀ m l, l = ((List.range m).map (· + 1)).map (fun d => (d, temporalAdjByOrderAll d recs)) →
+      l.map (·.1) = (List.range m).map (· + 1)
+      ∧ ∀ d tm, (d, tm) ∈ l → tm.map (·.1) = times recs
+          ∧ ∀ t M, (t, M) ∈ tm → M = adjByOrder d (snapshotNodes recs t) (snapshot recs t) := by
+    intro m l hl
+    subst hl
+    refine ⟨by simp [List.map_map, Function.comp], ?_⟩
+    intro d tm hmem
+    obtain ⟨d', _, hd'⟩ := List.mem_map.1 hmem
+    cases hd'
+    refine ⟨by simp [temporalAdjByOrderAll, List.map_map, Function.comp_def], ?_⟩
+    intro t M htM
+    obtain ⟨t', _, ht'⟩ := List.mem_map.1 htM
+    cases ht'
+    rfl
+  cases mo with
+  | some m =>
+    refine ⟨by simp [temporalAdjAllOrders], ?_⟩
+    intro l hl
+    simp only [temporalAdjAllOrders, Option.map_some, Option.some.injEq] at hl
+    exact ⟨m, Or.inl rfl, hval m l hl.symm⟩
+  | none =>
+    constructor
+    · simp only [temporalAdjAllOrders, Option.map_eq_none_iff, temporalMaxOrder, maxOrder_eq_none, true_and,
+        List.map_eq_nil_iff]
+    · intro l hl
+      simp only [temporalAdjAllOrders] at hl
+      cases hm : temporalMaxOrder recs with
+      | none => rw [hm] at hl; cases hl
+      | some m =>
+        rw [hm] at hl
+        simp only [Option.map_some, Option.some.injEq] at hl
+        exact ⟨m, Or.inr ⟨rfl, rfl⟩, hval m l hl.symm⟩
+
 /-! ## why D25 had to be repaired: the same model in arithmetic modulo 256 -/
 
 /-- In `uint8` arithmetic (`R = ZMod 256`, the unrepaired code) the adjacency claim fails: whenever two nodes share
@@ -680,3 +981,66 @@ example : ∀ x ∈ [2, 0, 1], encode (classes [2, 0, 1]) x = x :=
 example : classes [4, 0, 1] ≠ List.range 3 ∧ encode (classes [4, 0, 1]) 4 = 2 := by decide
 example : ¬ ∀ x ∈ [4, 0, 1], encode (classes [4, 0, 1]) x = x :=
   fun h => absurd ((C09_encoder_identity_iff [4, 0, 1] (by decide)).1 h) (by decide)
+
+/-! ### extension round -/
+local notation "exWq" => ([([10, 20, 30], 1), ([20, 10], 1), ([7, 30], 1), ([30, 20, 7], 1)] : List (Edge × Rat))
+
+example : entry (mulT (binInc (α := Int) exN exE) (binInc exN exE)) 3 3 = some (0 + 3)
+    ∧ entry (mulT (binInc (α := Int) exN exE) (binInc exN exE)) 2 3 = some (2 + 0) :=
+  ⟨(C09_adjacency_gram exN exE (by decide) (by decide) 3 3 (by decide) (by decide)).trans (by decide),
+   (C09_adjacency_gram exN exE (by decide) (by decide) 2 3 (by decide) (by decide)).trans (by decide)⟩
+example : entry (mulT (incByOrder 2 true exN exW) (incByOrder 2 true exN exW)) 3 3 = some (0 + 2) :=
+  (C09_by_order_gram 2 exN exW (by decide) (by decide) (by decide) 3 3 (by decide) (by decide)).trans (by decide)
+example : maxOrder exW = some 2 ∧ orders exW = some [1, 2] := by decide
+example : ∃ f : Nat → Int, (∀ d, entry (adjByOrder d exN exW) 2 3 = some (f d))
+    ∧ entry (adj (α := Int) exN (List.map (·.1) exW)) 2 3 = some (f 0 + (f 1 + (f 2 + 0))) :=
+  C09_adjacency_sum_orders exN exW (by decide) (by decide) (by decide) 2 (by decide) 2 3 (by decide) (by decide)
+example : adj (α := Int) exN (List.map (·.1) exW) = matAdd (adjByOrder 1 exN exW) (adjByOrder 2 exN exW) := by decide
+example : incAllOrders false exN exW = some [(1, [[0, 1], [1, 0], [1, 0], [0, 1]]), (2, [[0, 1], [1, 0], [1, 1], [1, 1]])] := by decide
+example : ∃ m, maxOrder exW = some m ∧ lapAllOrders false exN exW
+    = some ((List.range m).map fun i => (i + 1, laplacian (i + 1) exN exW)) := by
+  obtain ⟨m, h1, _, _, _, h2⟩ := (C09_all_orders false false exN exW).2 (by decide)
+  exact ⟨m, h1, h2⟩
+example : ∃ M, multiorderLaplacian [2, 3] false false exN exWq = some (MultiLap.mat M)
+    ∧ M.length = 5 ∧ (∀ r ∈ M, r.length = 5 ∧ r.sum = 0) ∧ entry M 2 3 = entry M 3 2 := by
+  obtain ⟨M, h, _⟩ := (((C09_multiorder_laplacian [2, 3] false false exN exWq (by decide) (by decide)).2 [1, 2] (by decide)).2
+    (by simp)).2 (by simp)
+  have hi := C09_multiorder_invariants [2, 3] false false exN exWq (by decide) (by decide) (by decide) (by simp) M h
+  exact ⟨M, h, hi.1, hi.2.1, hi.2.2 2 3 (by decide) (by decide)⟩
+example : multiorderLaplacian [2, 3, 4] true true exN exWq ≠ some MultiLap.undefScale
+    ∧ multiorderLaplacian [2] false true [10, 20, 30] [([10, 20, 30], (1 : Rat))] = some MultiLap.undefScale
+    ∧ multiorderLaplacian [] false true exN exWq = some MultiLap.noMatrix
+    ∧ multiorderLaplacian [2] false false exN ([] : List (Edge × Rat)) = none := by
+  refine ⟨?_, ?_, ?_, ?_⟩
+  · intro h
+    have := ((C09_multiorder_laplacian [2, 3, 4] true true exN exWq (by decide) (by decide)).2 [1, 2] (by decide)).2
+      (by decide)
+    obtain ⟨M, hM, _⟩ := this.2 (by simp)
+    rw [h] at hM
+    cases hM
+  · exact ((C09_multiorder_laplacian [2] false true [10, 20, 30] [([10, 20, 30], (1 : Rat))] (by decide) (by decide)).2
+      [1, 2] (by decide)).1 ⟨rfl, (1, 2), by simp, by decide⟩
+  · exact (((C09_multiorder_laplacian [] false true exN exWq (by decide) (by decide)).2 [1, 2] (by decide)).2
+      (by simp)).1 (by simp)
+  · exact (C09_multiorder_laplacian [2] false false exN ([] : List (Edge × Rat)) (by decide) (by simp)).1.2 rfl
+example : ∀ pv ∈ ((tensor (α := Int) 3 [[0, 1], [2, 1]]).getD []), pv.2 = 0 ∨ pv.2 = 1 := by decide
+example (t : List (List Nat × Int)) (h : tensor 3 [[0, 1], [2, 1]] = some t) : ∀ pv ∈ t, pv.2 = 0 ∨ pv.2 = 1 :=
+  C09_tensor_values 3 [[0, 1], [2, 1]] t h
+example : (temporalAdjAllOrders (none : Option Nat) exR).map (fun l => l.map (·.1)) = some [1, 2]
+    ∧ (temporalAdjAllOrders (some 1) exR).map (fun l => l.map fun p => p.2.map (·.1)) = some [[3, 7]] := by decide
+example : temporalAdjAllOrders (none : Option Nat) ([] : List (Rec Int)) = none :=
+  (C09_temporal_all_orders none ([] : List (Rec Int))).1.2 ⟨rfl, rfl⟩
+example : ((classes exN).map fun (a : Nat) => ((classes exN).map fun (b : Nat) => Int.ofNat a * lapL 2 exW a b * Int.ofNat b).sum).sum = 1398
+    ∧ lapL 2 exW 20 30 = -2 ∧ lapL 2 exW 30 30 = 4 := by decide
+example : (0 : Int) ≤ ((classes exN).map fun (a : Nat) => ((classes exN).map fun (b : Nat) => Int.ofNat a * lapL 2 exW a b * Int.ofNat b).sum).sum :=
+  lap_quadratic_form_nonneg 2 exN exW (by decide) (by decide) (by decide) Int.ofNat
+example : ∃ L : Nat → Nat → Int, ∀ a ∈ exN, ∀ b ∈ exN,
+    entry (laplacian 2 exN exW) (encode (classes exN) a) (encode (classes exN) b) = some (L a b) := by
+  obtain ⟨L, h, _⟩ := C09_laplacian_psd 2 exN exW (by decide) (by decide) (by decide) (by decide)
+  exact ⟨L, h⟩
+example : ∃ A : Nat → Nat → Int, A 30 20 = 2 ∧ A 30 7 = 1 ∧ A 30 30 = 0
+    ∧ entry (adjByOrder 2 exN exW) (encode (classes exN) 30) (encode (classes exN) 20) = some (A 30 20)
+    ∧ ((classes exN).map fun b => A 30 b).sum = 2 * 2 := by
+  refine ⟨fun a b => if a = b then 0 else gram 2 exW a b, by decide, by decide, by decide,
+    adjByOrder_entry_label 2 exN exW (by decide) (by decide) 30 20 (by decide) (by decide), ?_⟩
+  exact (adj_row_sum_label 2 exN exW (by decide) (by decide) (by decide) 30 (by decide)).trans (by decide)
